@@ -391,14 +391,14 @@ def run(ctx):
     rng = ctx.rng
     rng_spy()
     plan_ = []
-    for _ in range(ctx.scale(2, 8)):
+    for _ in range(ctx.scale(2, 12)):
         plan_.append({"init": "custom", "params": benign_custom(rng), "benign": True, "draws": ctx.scale(1500, 4000)})
-    for _ in range(ctx.scale(1, 4)):
+    for _ in range(ctx.scale(1, 6)):
         plan_.append({"init": "reference", "continuum": benign_reference(rng), "benign": True, "draws": ctx.scale(1500, 4000),
                       "ground_truth": None})
-    for _ in range(ctx.scale(25, 200)):
+    for _ in range(ctx.scale(25, 600)):
         plan_.append({"init": "custom", "params": hostile_custom(rng), "benign": False, "draws": 40})
-    for _ in range(ctx.scale(25, 200)):
+    for _ in range(ctx.scale(25, 600)):
         n = rng.randint(2, 5)
         cspec = cases.gen_continuum(rng, n_annot=n, max_units=rng.randint(1, 8), min_total=2, allow_empty=rng.random() < 0.3,
                                     labels=rng.choice([cases.LABELS_SMALL, cases.LABELS_WORDS, ["only"]]))
